@@ -265,7 +265,10 @@ pub fn run_c06(ctx: &Ctx) -> Report {
         prog.push_str("(rule ((edge a b w) (= d (dist a))) ((set (dist b) (+ d w))))\n(set (dist 0) 0)\n");
         let chunks: Vec<String> = vec![prog, format!("(run {})", 1 + rng.below(3)), "(print-function dist 20)".into(), "(run-schedule (saturate (run)))".into(), "(print-function dist 20)".into(), "(print-size dist)".into()];
         rep.evaluations += 1;
-        let run = |threads: usize| -> Vec<String> { let mut eg = EGraph::default().with_num_threads(threads); chunks.iter().map(|c| run_all(&mut eg, std::slice::from_ref(c)).remove(0)).collect() };
+        // the ORDER of the rows printed by print-function is insertion order, which legitimately depends on the thread
+        // count (C20 promises it for one thread only): compare the printed rows as a set
+        let norm = |s: String| -> String { let mut ls: Vec<&str> = s.split("\\n").map(|l| l.trim()).filter(|l| !l.is_empty()).collect(); ls.sort(); ls.join(" | ") };
+        let run = |threads: usize| -> Vec<String> { let mut eg = EGraph::default().with_num_threads(threads); chunks.iter().map(|c| norm(run_all(&mut eg, std::slice::from_ref(c)).remove(0))).collect() };
         let want = run(1);
         for threads in [2usize, 4] { let got = run(threads); rep.note_nontrivial(&("relax", ri, threads)); rep.count("parallel_configurations_run", 1);
             if got != want { let k = got.iter().zip(&want).position(|(x, y)| x != y).unwrap_or(0);
